@@ -324,7 +324,10 @@ def _symx_mod(fmt, args):
                 q += 1
             v = args[key] if key is not None else targs[k]
             if _sym(v):
-                raise Inconclusive("format directive %r applied to a symbolic value" % fmt[j:q + 1])
+                if isinstance(v, SInt) and fmt[q] in "xXodi":
+                    v = v.concretize()       # integer directives with flags / width / another base: one fork per feasible value
+                else:
+                    raise Inconclusive("format directive %r applied to a symbolic value" % fmt[j:q + 1])
             out.append(("%" + fmt[p:q + 1]) % (v,))
             if key is None:
                 k += 1
